@@ -370,6 +370,16 @@ func (s *Store[H]) DeleteRange(ctx context.Context, from, to uint64) error {
 
 	// Delete the headers without automatic tail updates
 	actualTo, _, deleteErr := s.deleteRangeRaw(ctx, from, to)
+	// a reader that loaded a header of the range while it was being deleted (with a write batch
+	// the datastore keeps it until the commit) may have put it back into the caches
+	s.heightIndex.fills.invalidate(func() {
+		for height := from; height < actualTo; height++ {
+			if hash, ok := s.heightIndex.cache.Peek(height); ok {
+				s.cache.Remove(hash.String())
+			}
+			s.heightIndex.cache.Remove(height)
+		}
+	})
 	if wipe && deleteErr == nil {
 		// all the headers are gone, drop the head and tail pointers as well
 		if err := s.wipe(ctx); err != nil {
